@@ -52,6 +52,7 @@ type (
 		Slice bool
 		Pkg   string // qualifier as written ("" for local)
 		Name  string
+		MapKey, MapVal *TypeExpr // map[K]V (Name is "map")
 	}
 )
 
